@@ -690,6 +690,9 @@ class Element(UnicodeMixin):
                     del self.nsprefixes[p]
                 continue
             if p != self.parent.prefix:
+                inherited = self.parent.resolvePrefix(p, None)
+                if inherited is not None and inherited[1] != u:
+                    continue
                 self.parent.nsprefixes[p] = u
                 del self.nsprefixes[p]
         return self
